@@ -330,6 +330,27 @@ for file, fn, nm, nbytes, ncols, fl in (("src/skinny128-ctr-vec128.c", "skinny12
         vc.append(d)
 mods.append({"name": "VecCounterLeaf", "entries": vc})
 
+# ---------------------------------------------------------------- vector CTR back ends: the batch block functions on the strided counter image
+W32 = ["-DSKINNY_VERIF_64BIT=0"]
+for file, fn, nm, nbytes, leafs, fl0, variants in (
+        ("src/skinny128-ctr-vec128.c", "skinny128_ecb_encrypt_four", "v128c", 64,
+         [("skinny128_sbox_four", "v128c_sbox", 8, {"u": LW, "v": LW0, "s": LW0, "t": LW0}, None)], [], True),
+        ("src/skinny128-ctr-vec256.c", "skinny128_ecb_encrypt_eight", "v256c", 128,
+         [("skinny128_sbox_four", "v256c_sbox", 8, {"u": LW, "v": LW0, "s": LW0, "t": LW0}, None)], ["-mavx2"], True),
+        ("src/skinny64-ctr-vec128.c", "skinny64_ecb_encrypt_eight", "v64c", 64,
+         [("skinny64_sbox", "v64c_sbox", 4, {"x": LW}, "direct")], [], False)):
+    mods.append({"name": "VecCtr%sLeaf" % nm[1:-1], "entries": [e(file, lf, ln, fl0, lane, prm, lp) for lf, ln, lane, prm, lp in leafs]})
+    P = {"output": {"bytes": nbytes, "out": True}, "input": {"bytes": nbytes}}
+    rows = ["row0", "row1", "row2", "row3"]
+    vp = []
+    d = pe(file, fn, f"{nm}_enc_load", "seg", 0, fl0, P, rows); d["veclanes"] = "explicit"; vp.append(d)
+    vp.append(pe(file, fn, f"{nm}_enc_round", "loop", 0, fl0, P, rows, rows + ["schedule_0"]))
+    d = pe(file, fn, f"{nm}_enc_store", "seg", 1, fl0, P, ["output"], rows); d["veclanes"] = "explicit"; vp.append(d)
+    if variants:
+        vp.append(pe(file, fn, f"{nm}_enc_round_w32", "loop", 0, fl0 + W32, P, rows, rows + ["schedule_0"]))      # skinny128_sbox_two path
+        d = pe(file, fn, f"{nm}_enc_store_u0", "seg", 1, fl0 + U0, P, ["output"], rows); d["veclanes"] = "explicit"; vp.append(d)
+    mods.append({"name": "VecCtr%sPieces" % nm[1:-1], "imports": ["VecCtr%sLeaf" % nm[1:-1]], "entries": vp})
+
 # ---------------------------------------------------------------- argument guards of the public key/tweak setters
 guards = []
 for file, fns in ((S128, ["skinny128_set_key", "skinny128_set_tweaked_key", "skinny128_set_tweak"]),
